@@ -50,9 +50,16 @@ impl Subjects {
 
     pub fn base(&self, base: &str) -> Result<Base, String> {
         let name = self.shape.name;
+        // The memo shapes (6-7 actions) exist for the encodings of the memo representations: their
+        // lattices are structural (encoding of every copy, combination laws); the identity of
+        // their states is checked by the role search.
+        let real = !shapes::is_memo_shape(name);
         match base {
-            "created" => Base::new(name, base, &self.shape.created, true),
-            "maximal" => Base::new(name, base, &self.maximal, true),
+            "created" => Base::new(name, base, &self.shape.created, real),
+            "maximal" => Base::new(name, base, &self.maximal, real),
+            // the v2-only representation: cv_net / cmx removed and the encrypted notes replaced by
+            // their stripped memo plaintexts wherever they can be recomputed
+            "compacted" => Base::new(name, base, &self.shape.apply(&Role::RedactCompact, self.maximal.clone())?, real),
             "saturated" => {
                 let (t, _) = canon(&self.maximal)?;
                 let (sat, filled, unfilled) = saturate(&t);
@@ -67,7 +74,7 @@ impl Subjects {
     }
 }
 
-pub const BASES: &[&str] = &["created", "maximal", "saturated"];
+pub const BASES: &[&str] = &["created", "maximal", "compacted", "saturated"];
 
 /// Optional fields the documentation lists as transaction-effecting (used where the identity of a
 /// synthetic subject cannot be computed; cross-checked against the mechanical classification).
@@ -139,6 +146,12 @@ pub struct Base {
 
 impl Base {
     pub fn new(subject: &str, base: &str, top: &Pczt, real: bool) -> Result<Base, String> {
+        // the top itself must survive its own encoding (a verdict, not a machinery error)
+        match catch(|| encoding_check(top)) {
+            Ok(Ok(_)) => {}
+            Ok(Err(e)) => return Err(format!("encoding: {subject}/{base}: {e}")),
+            Err(pn) => return Err(format!("encoding: {subject}/{base}: panic: {pn}")),
+        }
         let (t, _) = canon(top)?;
         parse_tree(&t).map_err(|e| format!("{subject}/{base}: the encoder disagrees with the crate on the unedited subject: {e}"))?;
         let top_id = if real { identity(top).map_err(|e| format!("identity: {subject}/{base}: {e}"))? } else { None };
@@ -146,7 +159,7 @@ impl Base {
             return Err(format!("{subject}/{base}: identity of the top is not computable"));
         }
         let atoms = tree::atoms(&t);
-        let mut classify_failures = vec![];
+        let classify_failures = vec![];
         let documented = |a: &Atom| a.path.len() == 1 || (!a.is_entry && EFFECTING_NAMES.contains(&tree::last_field(&a.path)));
         let mut class: Vec<Class> = atoms
             .par_iter()
@@ -155,38 +168,27 @@ impl Base {
                 tree::remove(&mut c, a);
                 let p = match parse_tree(&c) {
                     Ok(p) => p,
-                    Err(_) => return (Class::Required, None),
+                    Err(_) => return Class::Required,
                 };
                 if documented(a) {
-                    return (Class::Effecting, None);
+                    return Class::Effecting;
                 }
-                if !real {
-                    return (Class::Free, None);
+                // removal on its own changes or destroys the identity (also: another field depends
+                // on this one, e.g. a note's rseed is only interpretable next to its rho)
+                if real && !matches!(catch(|| super::identity_own(&p)), Ok(id) if id.is_some() && id == top_id) {
+                    return Class::Effecting;
                 }
-                match catch(|| identity(&p)) {
-                    Ok(Ok(id)) if id == top_id => (Class::Free, None),
-                    Ok(Ok(_)) => (Class::Effecting, None),
-                    Ok(Err(m)) => (Class::Effecting, Some(m)),
-                    Err(pn) => (Class::Effecting, Some(format!("panic: {pn}"))),
-                }
-            })
-            .collect::<Vec<_>>()
-            .into_iter()
-            .zip(&atoms)
-            .map(|((c, f), a)| {
-                if let Some(m) = f {
-                    classify_failures.push((a.id(), m));
-                }
-                c
+                Class::Free
             })
             .collect();
         if real {
-            // Some effecting data is carried redundantly (cv_net / cmx / the encrypted note can be
-            // recomputed from the note fields): removing any one of them alone keeps the identity,
-            // removing all does not. Walk the free atoms from the last to the first, removing
-            // cumulatively; an atom whose removal now changes or destroys the identity is pinned
-            // (kept in every copy, like the effecting ones). The explicit commitments come first in
-            // document order, so they are the ones that stay.
+            // Which of the remaining atoms carry the identity? Walk them from the last to the
+            // first, removing cumulatively; an atom whose removal now changes or destroys the
+            // identity stays (it is kept in every copy, like the documented effecting fields).
+            // This also settles effecting data that is carried redundantly (cv_net / cmx / the
+            // encrypted note can be recomputed from the note fields): the explicit commitments
+            // come first in document order, so they are the ones that stay. The classifier is
+            // the crate's own identity; the full three-way identity is a verdict on the copies.
             let mut cur = t.clone();
             for i in (0..atoms.len()).rev() {
                 if class[i] != Class::Free {
@@ -196,7 +198,7 @@ impl Base {
                 if !tree::remove(&mut c, &atoms[i]) {
                     continue;
                 }
-                let same = parse_tree(&c).ok().and_then(|p| catch(|| identity(&p)).ok()).map(|r| matches!(r, Ok(id) if id == top_id)).unwrap_or(false);
+                let same = parse_tree(&c).ok().and_then(|p| catch(|| super::identity_own(&p)).ok()).map(|id| id.is_some() && id == top_id).unwrap_or(false);
                 if same {
                     cur = c;
                 } else {
@@ -668,10 +670,13 @@ fn cases_for(b: &Base, args: &Args) -> Vec<Value> {
         cases.push(with("copy", json!({"s": ids(b, &co)})));
     }
     // singletons against bottom and top, and all pairs
+    // (quick tier: the pair enumeration runs on the created / maximal / saturated tops of the four
+    // transaction shapes; the compacted tops and the memo shapes keep singletons and subsets)
+    let pairs = args.tier == mc_core::Tier::Thorough || !(shapes::is_memo_shape(&b.subject) || b.base == "compacted");
     for (n, &i) in free.iter().enumerate() {
         cases.push(with("union", json!({"s": ids(b, &s1(i)), "t": ids(b, &empty)})));
         cases.push(with("union_top", json!({"s": ids(b, &s1(i))})));
-        for &j in &free[n + 1..] {
+        for &j in free[n + 1..].iter().filter(|_| pairs) {
             cases.push(with("union", json!({"s": ids(b, &s1(i)), "t": ids(b, &s1(j))})));
         }
     }
@@ -757,6 +762,11 @@ pub fn explore(run: &Run, args: &Args, subjects: &[Subjects]) {
     let mut wanted: Vec<(Option<&Subjects>, &str)> = vec![];
     for s in subjects {
         for b in BASES {
+            // quick tier: the memo shapes get the top that matters for the memo representations
+            // (the created PCZT is the root of their role search), without the pair enumeration
+            if args.tier == mc_core::Tier::Quick && shapes::is_memo_shape(s.shape.name) && *b != "compacted" {
+                continue;
+            }
             wanted.push((Some(s), b));
         }
     }
@@ -776,14 +786,20 @@ pub fn explore(run: &Run, args: &Args, subjects: &[Subjects]) {
         let subject = s.map(|s| s.shape.name).unwrap_or("firmware");
         match b {
             Ok(b) => bases.push(b),
-            Err(m) if m.starts_with("identity: ") => run.fail("lattice", format!("{subject}/{name}:identity-of-top"), m, json!({"subject": subject, "base": name, "check": "top"})),
+            Err(m) if m.starts_with("identity: ") || m.starts_with("encoding: ") => {
+                run.fail("lattice", format!("{subject}/{name}:{}-of-top", if m.starts_with("identity") { "identity" } else { "encoding" }), m, json!({"subject": subject, "base": name, "check": "top"}))
+            }
             Err(m) => mc_core::machinery_error(&format!("C13: cannot build lattice {subject}/{name}: {m}")),
         }
+    }
+    if std::env::var("VERIF_C13_DEBUG").is_ok() {
+        eprintln!("TIME bases built at {:.2}s", run.elapsed());
     }
     let mut summary = serde_json::Map::new();
     let mut combines = 0u64;
     let mut copies = 0u64;
     for b in &bases {
+        let tb = std::time::Instant::now();
         let cases = cases_for(b, args);
         copies += cases.iter().filter(|c| c["check"] == "copy").count() as u64;
         let results: Vec<(usize, Result<String, String>)> = cases.par_iter().enumerate().map(|(i, c)| (i, check_case(b, c))).collect();
@@ -842,6 +858,9 @@ pub fn explore(run: &Run, args: &Args, subjects: &[Subjects]) {
                     run.sample(c.clone());
                 }
             }
+        }
+        if std::env::var("VERIF_C13_DEBUG").is_ok() {
+            eprintln!("TIME {}/{} {:.2}s cases {}", b.subject, b.base, tb.elapsed().as_secs_f64(), cases.len());
         }
         run.require(free.len() >= 4, &format!("{}/{}: fewer than 4 free atoms", b.subject, b.base));
     }
